@@ -14,6 +14,9 @@ package querylog
 //vx:stub encoding/json.NewDecoder vxC07NewDecoder
 //vx:stub (*encoding/json.Decoder).Token vxC07Token
 //vx:stub (*encoding/json.Decoder).Decode vxC07DecDecode
+//vx:note RoundTrip: 16 entries covering every filtering reason, 0..2 rules (with/without address and list ID, negative IDs), service name, CNAME, legacy IP list, DNS rewrite results (RCode, A/AAAA/PTR/TXT values), all five client protocols, v4/v6/4-in-6 clients, ECS, answer and original answer, cached/AD flags, zero elapsed, IDN host, escaped characters; their lines were produced natively by the real json.Encoder (gen_golden_test.go.txt) and are decoded under the engine by the REAL decode.go on top of a harness JSON tokenizer (encoding/json's Decoder.Token/Decode are reflection-driven: stubs NewDecoder, Token, Decode); variant with the first two bytes of host, ClientID and first rule text symbolic; 3 legacy line shapes (Rule/FilterID, ReverseHosts, IPList+hosts reason) with the expectations of the package's own decoder tests
+//vx:note RoundTrip also checks on each real line: readQLogTimestamp = entry time, the entry is selected by its own host/address/ClientID/client name (full match) and not dropped by the quick pre-match
+//vx:note outside: the JSON encoder itself (trusted, run natively to produce the lines); numbers/objects as DNS rewrite values; malformed lines
 //vx:entry vxC07RoundTrip reach=decoded,rules,rewrite-values,legacy-hosts,legacy-rule,escaped,symbolic-text
 
 import (
